@@ -126,6 +126,17 @@ def _shard_syn(rec, arg):
             _do(rec, s, "q-run", True, "exhaustive-syntax-alphabet")
 
 
+def _shard_cp2(rec, arg):
+    """every string of two code-page characters (direct channel, compression off): digraphs, documented
+    alternative spellings, dictionary codes ... none of them may be anything but data inside a string"""
+    shard, nshards = arg
+    for i, a in enumerate(CP):
+        if i % nshards != shard:
+            continue
+        for b in CP:
+            _do(rec, a + b, "direct", False, "exhaustive-codepage-pairs")
+
+
 def _shard_hyp(rec, arg):
     seed, n = arg
 
@@ -161,6 +172,8 @@ def run(rec, tier, seed):
     ns = campaign.NCPU
     campaign.parallel(rec, _shard_exh, [(s, ns) for s in range(ns)])
     rec.exhaustive.append("strings of length<=3 over {\\ ` \" ' newline a n x 0 λ} in every channel")
+    campaign.parallel(rec, _shard_cp2, [(s, ns * 2) for s in range(ns * 2)])
+    rec.exhaustive.append("all 65 536 strings of two code-page characters (direct channel, compression off)")
     for L in ((4,) if tier == "quick" else (4, 5)):
         campaign.parallel(rec, _shard_syn, [(s, ns * 2, L) for s in range(ns * 2)])
         rec.exhaustive.append(f"strings of length {L} over the {len(SYN_ALPHABET)} structure / comment characters (direct channel; q-run with compression for ASCII ones)")
